@@ -369,7 +369,7 @@ def check_optional_keys(repo: Repo, run: Run, interp) -> None:
 
 def check(repo: Repo, run: Run) -> None:
     if not getattr(run, "is_probe", False):
-        take_over(run, "c03", "C03", repo, lambda o: o["rule"] == "R6" and "every collected log record is decoded in order" in o["construct"], "R0",
+        take_over(run, "c03", "C03", repo, lambda o: o["rule"] == "R6" and ("every collected log record is decoded in order" in o["construct"] or "string index is inverted" in o["construct"]), "R0",
                    "container side", "the same records parsed out of a version-3 file are then not all yielded: a record lacking "
                    "an optional key is decoded and dropped", 1)
     interp = sym.Interp(repo)
